@@ -163,7 +163,7 @@ def fresh_state(graph_sets, shape="gba", container="dict", reg_order=None):
     raise HarnessError("unknown state container %r" % (container,))
 
 
-def make_standin(shape, computed, graph_sets=None):
+def make_standin(shape, computed, graph_sets=None, no_t4_agents=()):
     """A run_turn that follows the dry-run contract; deterministic in (agent, text, the context fields it is handed, the static
     registry / agent maps it reads from the state, state-of-own-target)."""
     graph_sets = graph_sets or {}
@@ -202,6 +202,13 @@ def make_standin(shape, computed, graph_sets=None):
             append_jsonl(stream, {"turn": turn, "agent": agent, "i": i, "text": text, "pad": "p" * SIZES[size], "ms": 5.0})
         echo = ",".join("%s=%r" % (k, getattr(ctx, k, "<absent>")) for k in CTX_ECHO)
         utter = "u:%s:%s@%s%s" % (agent, text, echo, focus)
+        # run_turn's contract has turns WITHOUT a T4 outcome: the kill switch (t4.enabled false: neither the meta-filter nor
+        # Apply runs, dry-run or not) and a turn that yields at a stage boundary before T4.  Such a turn leaves no
+        # _dryrun_t4 behind and, run sequentially, applies nothing and writes no apply record.
+        cfg_t4 = (getattr(ctx, "cfg", None) or getattr(ctx, "config", None) or {}).get("t4", {}) or {}
+        if (not bool(cfg_t4.get("enabled", True))) or agent in no_t4_agents:
+            append_jsonl("turn.jsonl", {"turn": turn, "agent": agent, "no_t4": True, "ms": 5.0})
+            return types.SimpleNamespace(line=utter, events=[])
         t4 = types.SimpleNamespace(approved_deltas=deltas, rejected_ops=[], reasons=[], metrics={"counts": {"approved": len(deltas)}})
         if dry:
             ctx._dryrun_t4 = t4
@@ -220,9 +227,11 @@ def make_standin(shape, computed, graph_sets=None):
     return _run_turn
 
 
-def _cfg(par_on, workers, snap_dir, cadence):
+def _cfg(par_on, workers, snap_dir, cadence, kill=False):
     over = {"perf": {"parallel": {"enabled": bool(par_on), "agents": bool(par_on), "max_workers": int(workers)}},
             "t4": {"snapshot_every_n_turns": cadence}}
+    if kill:
+        over["t4"]["enabled"] = False
     return W.make_cfg(over, snap_dir=snap_dir)
 
 
@@ -238,7 +247,7 @@ def drive(case, scratch, par_on, tasks=None, limit=None, measure=None):
     old_stage = iol.LogStager.stage
     out = {"error": None}
     try:
-        orch_core.Orchestrator.run_turn = make_standin(SHAPES[case["shape"]], computed, case["graphs"])
+        orch_core.Orchestrator.run_turn = make_standin(SHAPES[case["shape"]], computed, case["graphs"], tuple(case.get("no_t4", ())))
         real_enable = iol.enable_staging
         if limit is not None:
             orch.enable_staging = lambda: real_enable(byte_limit=limit)
@@ -250,7 +259,7 @@ def drive(case, scratch, par_on, tasks=None, limit=None, measure=None):
                 old_stage(self, file_path, key, payload)
                 measure.append(self._bytes - b0)
             iol.LogStager.stage = _stage
-        cfg = _cfg(par_on, case["workers"], ex.snap_dir, case.get("cadence", 1))
+        cfg = _cfg(par_on, case["workers"], ex.snap_dir, case.get("cadence", 1), bool(case.get("kill", False)))
         if case.get("ctx", "t6") not in CTXS:
             raise HarnessError("unknown ctx variant %r" % (case.get("ctx"),))
         ctx = types.SimpleNamespace(cfg=cfg, config=cfg, agent_id="batch", **CTXS[case.get("ctx", "t6")])
@@ -532,6 +541,21 @@ def cases(thorough):
                 d = dict(d)
                 d["cadence"] = 4          # turn 0 is a snapshot turn under every cadence, turn 1 is not
                 extra.append(d)
+    # --- turns without a T4 outcome: the kill switch (whole batch) and single agents that yield before T4
+    for c in out:
+        if c["shape"] != "std" or len(c["agents"]) > (3 if thorough else 2):
+            continue
+        d = dict(c)
+        d["kill"] = True
+        if not thorough:
+            d["lim"] = "ends"
+        extra.append(d)
+        for a in c["agents"]:
+            d = dict(c)
+            d["no_t4"] = [a]
+            if not thorough:
+                d["lim"] = "ends"
+            extra.append(d)
     # --- state container x registry insertion order x naming of the agents' graphs; the stand-in observes what it reads
     orders = range(len(REG_ORDERS)) if thorough else (0, 2, 4)     # quick: sorted (control), [G2,G1,G3], [G3,G1,G2]
     for n in range(1, 4 if thorough else 3):
